@@ -25,6 +25,7 @@ func init() {
 	vrt.Register("C06_string_plus_number", StringPlusNumber)
 	vrt.Register("C06_literals", Literals)
 	vrt.Register("C06_node_evaluated_again", NodeEvaluatedAgain)
+	vrt.Register("C06_float_symbolic", FloatSymbolic)
 }
 
 var binops = []string{"+", "-", "*", "/", "<", "<=", ">", ">=", "==", "!=", "&&", "||", "~="}
@@ -736,5 +737,64 @@ func NodeEvaluatedAgain() {
 	vrt.Note("got", got)
 	vrt.Assert(err == nil, "the program renders")
 	vrt.Assert(got == want, "an operator evaluated again with other operands gives the value for those operands")
+	vrt.Cover("done")
+}
+
+// ---- every float64 (all bit patterns: NaN, infinities, signed zeros,
+// subnormals) as operand: comparisons print Go's verdict; the results of the
+// arithmetic operators cannot be printed symbolically, so they are compared
+// inside the template with the value Go computes (c); division by a zero of
+// either sign is an error
+func FloatSymbolic() {
+	a, b := vrt.Float64(), vrt.Float64()
+	ctx := plush.NewContext()
+	ctx.Set("a", a)
+	ctx.Set("b", b)
+	ops := []string{"<", "<=", ">", ">=", "==", "!=", "+", "-", "*", "/"}
+	n := 8 // the multiplier and the divider are left to the thorough tier
+	if vrt.Tier() > 0 {
+		n = len(ops)
+	}
+	op := ops[vrt.Choice(n)]
+	var want bool
+	expr := "a " + op + " b"
+	switch op {
+	case "<":
+		want = a < b
+	case "<=":
+		want = a <= b
+	case ">":
+		want = a > b
+	case ">=":
+		want = a >= b
+	case "==":
+		want = a == b
+	case "!=":
+		want = a != b
+	default:
+		var c float64
+		switch op {
+		case "+":
+			c = a + b
+		case "-":
+			c = a - b
+		case "*":
+			c = a * b
+		default:
+			if b == 0 {
+				_, err := render(expr, ctx)
+				vrt.Assert(err != nil, "float division by zero is an error")
+				vrt.Cover("division by zero")
+				return
+			}
+			c = a / b
+		}
+		ctx.Set("c", c)
+		expr = "(a " + op + " b) == c"
+		want = c == c // a NaN result is not equal to itself
+	}
+	got, err := render(expr, ctx)
+	vrt.Assert(err == nil, "float operator renders: "+op)
+	vrt.Assert(got == b2s(want), "float operator on arbitrary float64 operands: value equals Go's: "+op)
 	vrt.Cover("done")
 }
